@@ -22,6 +22,7 @@
  */
 #include "MHD_config.h"
 #include "internal.h"
+#include "mhd_itc.h"
 #include <microhttpd.h>
 #include <sys/epoll.h>
 #include <dlfcn.h>
@@ -521,7 +522,9 @@ static void report_watch (void)
   }
   printf ("fdset "); put_fdlist ("r", &rs); putchar (' '); put_fdlist ("w", &ws); putchar (' '); put_fdlist ("e", &es); putchar ('\n');
   select ((int) maxfd + 1, &rs, &ws, &es, &tv);
-  printf ("kready "); put_fdlist ("r", &rs); putchar (' '); put_fdlist ("w", &ws); putchar (' '); put_fdlist ("e", &es); putchar ('\n');
+  printf ("kready "); put_fdlist ("r", &rs); putchar (' '); put_fdlist ("w", &ws); putchar (' '); put_fdlist ("e", &es);
+  /* the inter-thread channel (present with MHD_ALLOW_SUSPEND_RESUME) is a watched descriptor too */
+  printf (" itc=%d\n", (MHD_ITC_IS_VALID_ (d->itc) && FD_ISSET (MHD_itc_r_fd_ (d->itc), &rs)) ? 1 : 0);
 }
 
 /* ---------------------------------------------------------------- rounds */
@@ -766,6 +769,11 @@ int main (void)
     { shutdown (conns[a].cfd, SHUT_WR); out ("ok"); continue; }
     if (!strcmp (op, "cclose") && l.n >= 2 && lp_u64 (l.w[1], &a) && a < MAXC && conns[a].used)
     { drain_clients (); close (conns[a].cfd); conns[a].cfd = -1; conns[a].eof_seen = 1; out ("ok"); continue; }
+    if ((!strcmp (op, "roundw") || !strcmp (op, "round-ready-w")) && !threaded ())
+    { /* an application that calls the loop only when the API obliges it to */
+      if (!loop_wanted ()) { out ("skipped"); report (); continue; }
+      op = (!strcmp (op, "roundw")) ? "round" : "round-ready";
+    }
     if (!strcmp (op, "round")) { one_round (NULL); report (); continue; }
     if (!strcmp (op, "round-ready")) { if (strcmp (cfg.mode, "select")) { out ("bad-op"); continue; } one_round (&l); report (); continue; }
     if (!strcmp (op, "drain") && l.n >= 2 && lp_u64 (l.w[1], &a) && !threaded ())
@@ -780,7 +788,7 @@ int main (void)
     if (!strcmp (op, "resume") && l.n >= 2 && lp_u64 (l.w[1], &a) && a < MAXC && conns[a].mc)
     { /* resuming a connection that is not suspended is undefined behaviour by the API: skip it */
       if (!conns[a].mc->suspended || conns[a].mc->resuming) { out ("resume-skipped c=%d", (int) a); continue; }
-      conns[a].resume_in = -1; out ("resume c=%d", (int) a); MHD_resume_connection (conns[a].mc); continue; }
+      conns[a].resume_in = -1; out ("resume c=%d", (int) a); MHD_resume_connection (conns[a].mc); report (); continue; }
     if (!strcmp (op, "up-close") && l.n >= 2 && lp_u64 (l.w[1], &a) && a < MAXC && conns[a].upgraded)
     { out ("up-close c=%d -> %d", (int) a, (int) MHD_upgrade_action (conns[a].urh, MHD_UPGRADE_ACTION_CLOSE)); conns[a].upgraded = 0; continue; }
     if (!strcmp (op, "up-recv") && l.n >= 2 && lp_u64 (l.w[1], &a) && a < MAXC && conns[a].upgraded)
